@@ -368,14 +368,14 @@ let () =
   let impl = if Array.length Sys.argv > 2 && Sys.argv.(2) <> "-" then read_lines Sys.argv.(2) else [] in
   let impl = Array.of_list impl in
   (* every recorded repair is in /repo; the other names only replay historical witnesses by hand
-     (argv[3] = pre_d2827a3 | unclaimed_paths | superseded_survives | unclaimed_and_superseded | pre_94649ad) *)
+     (argv[3] = pre_e71725e | pre_d2827a3 | unclaimed_paths | superseded_survives | unclaimed_and_superseded | pre_94649ad) *)
   let vname = if Array.length Sys.argv > 3 then Sys.argv.(3) else "repaired" in
   let variant = match vname with
     | "unclaimed_paths" -> { v_keyhit = true; v_claim_all = false; v_evict_pp = true }
     | "superseded_survives" -> { v_keyhit = true; v_claim_all = true; v_evict_pp = false }
     | "unclaimed_and_superseded" -> { v_keyhit = true; v_claim_all = false; v_evict_pp = false }
     | "pre_94649ad" -> { v_keyhit = false; v_claim_all = false; v_evict_pp = false }
-    | "ha_install_unclaimed" -> { v_keyhit = true; v_claim_all = false; v_evict_pp = true }
+    | "pre_e71725e" -> { v_keyhit = true; v_claim_all = false; v_evict_pp = true }
     | _ -> { v_keyhit = true; v_claim_all = true; v_evict_pp = true } in
   List.iteri (fun idx line ->
       let out =
